@@ -183,11 +183,25 @@ example : ctxOk ctxLinux = true ∧
     skipElemsY Expected.C17.known ctxLinux false ["zfile", "linux", "amd64"] true = false ∧
     skipElemsY Expected.C17.known { ctxLinux with tags := ["windows"] } false ["f", "windows"] true = false := by decide
 
-/-- F17: a `//go:build` line is dropped by CommentGroup.Text, so buildOk never sees it;
-    the toolchain evaluates it (here `windows` on linux ⇒ not selected). -/
-theorem gobuild_ignored_witness :
-    buildOkRaw ctxLinux [[⟨true, ['g','o',':','b','u','i','l','d',' ','w','i','n','d','o','w','s']⟩]] = .ok true ∧
-    (Spec.BExpr.tag "windows").eval ctxLinux = false := by
-  constructor
-  · decide
-  · decide
+/-- **`//go:build` expressions are evaluated as the toolchain evaluates them** (since fix e527178: buildOk
+    parses the line with go/build/constraint and evaluates every word with buildTagOk), for every
+    context and every expression whose words are in the tag domain. -/
+def DomExpr (c : Ctx) : GExpr → Prop
+  | .tag t => DomTag c t
+  | .not e => DomExpr c e
+  | .and a b => DomExpr c a ∧ DomExpr c b
+  | .or a b => DomExpr c a ∧ DomExpr c b
+
+theorem gobuild_expr_correct (c : Ctx) (e : GExpr) (h : DomExpr c e) : e.evalY c = Spec.evalG c e := by
+  induction e with
+  | tag t => simp only [GExpr.evalY, Spec.evalG]; exact tag_correct c t h
+  | not e ih => simp only [GExpr.evalY, Spec.evalG, ih h]
+  | and a b iha ihb => simp only [GExpr.evalY, Spec.evalG, iha h.1, ihb h.2]
+  | or a b iha ihb => simp only [GExpr.evalY, Spec.evalG, iha h.1, ihb h.2]
+
+/-- non-vacuity: `linux && !arm || go1.18 && foo` is in the domain and true for linux/amd64/go1.22 + foo -/
+example : DomExpr ctxLinux (.or (.and (.tag (.word "linux")) (.not (.tag (.word "arm")))) (.and (.tag (.rel 18)) (.tag (.word "foo")))) ∧
+    (GExpr.or (.and (.tag (.word "linux")) (.not (.tag (.word "arm")))) (.and (.tag (.rel 18)) (.tag (.word "foo")))).evalY ctxLinux = true := by
+  refine ⟨⟨⟨⟨by decide, trivial⟩, ⟨by decide, trivial⟩⟩, ⟨⟨by decide, by decide⟩, ⟨by decide, trivial⟩⟩⟩, by decide⟩
+
+end YaegiVerif.Props.C17
